@@ -363,7 +363,18 @@ func mkS2S(w *iamflow.World, _ int) (*fresh, error) {
 	if nonce == "" {
 		return nil, fmt.Errorf("no nonce found in captured presentation")
 	}
-	return &fresh{secret: nonce, redeem: func(int) (bool, string) { return tokenOK(w.Replay(c)) }}, nil
+	// the presentation is what carries the nonce; request parameters that the flow does not bind to it (client_id is a free form
+	// parameter here) vary between presenters: every odd presenter names another client
+	return &fresh{secret: nonce, redeem: func(i int) (bool, string) {
+		if i%2 == 0 {
+			return tokenOK(w.Replay(c))
+		}
+		f := c.Form()
+		f.Set("client_id", fmt.Sprintf("https://other-client-%d.example/oauth2/x", i))
+		c2 := *c
+		c2.Body = []byte(f.Encode())
+		return tokenOK(w.Replay(&c2))
+	}}, nil
 }
 
 func mkCode(w *iamflow.World, i int) (*fresh, error) {
